@@ -21,7 +21,7 @@ func init() {
 			"goroutine has logged the next line}; byte stream cut per byte / PRNG sizes / one segment / inside CRLF, lines of 4094..4098, 20000 and 510..514 bytes; a 001 welcome at a PRNG position; ended by drain+Close, abrupt Close, EOF or read error " +
 			"with handlers still running; GOMAXPROCS 1,2,4,16 under the race detector. Offline oracle over the ENTER/EXIT event log: open foreground invocations always belong to one line, dispatched sequence numbers strictly increase " +
 			"(equal to what was sent when the session was drained), every handler of a verb ran exactly once per dispatched line, no handler of a later line enters before all foreground handlers of earlier lines exited, CONNECTED placement " +
-			"and nick, DISCONNECTED after every foreground exit. A session is non-trivial when >= 2 handlers of the same line were open at once and >= 1 line crossed a segment boundary; Plus sessions inside a testing/synctest bubble whose handlers take 1 ms .. 1 h of virtual time (a dispatch that stops waiting after some timeout must not let the next line start). Supervised-reconnect sessions: a supervisor goroutine calls Connect from the moment the link drops (EOF, read error, write error, Close) while a foreground handler of the old connection is still running; handlers of the two connections' lines never overlap, each connection keeps its order, DISCONNECTED comes after the old connection's last handler returned. EOF / read-error endings (also of drained sessions, event loop idle) are preceded by an unterminated fragment of one more line, which must never be delivered. Long lines also of 510..514 bytes (the RFC 1459 limit). distinct_nontrivial = distinct " +
+			"and nick, DISCONNECTED after every foreground exit. A session is non-trivial when >= 2 handlers of the same line were open at once and >= 1 line crossed a segment boundary; Plus sessions inside a testing/synctest bubble whose handlers take 1 ms .. 1 h of virtual time (a dispatch that stops waiting after some timeout must not let the next line start). Supervised-reconnect sessions: a supervisor goroutine calls Connect from the moment the link drops (EOF, read error, write error, Close) while a foreground handler of the old connection is still running; handlers of the two connections' lines never overlap, each connection keeps its order, DISCONNECTED comes after the old connection's last handler returned. EOF / read-error endings (also of drained sessions, event loop idle) are preceded by an unterminated fragment of one more line, which must never be delivered. Long lines also of 510..514 bytes (the RFC 1459 limit). Every sixth drained session delivers a temporary read error (net.Error, Temporary) in the middle of a line and then the rest of the stream: a client that gives the connection up is judged like a read error, one that carries on must deliver every line whole and in order. y- batches: the same against the schedule-perturbed copy. distinct_nontrivial = distinct " +
 			"(segmentation, ending, GOMAXPROCS, handler-duration mix, long-line) cells among non-trivial sessions.",
 		Assumptions: []string{"the capturing logger's '<- line' record is used only to shape handler durations, never as an oracle input"},
 		Plan: func(tier string, seed int64) []Batch {
